@@ -622,6 +622,9 @@ def run(c, facts):
     R8 = c.rule('C03.R8', 'MARKER: a name handed out for a recursion point is registered with its value on every path, so the $ref to it resolves (shared with C09.R1)')
     c.shared(R8, _c09.r1_marker, 'C09.R1', facts)
     import c04
+    import c13 as _c13
+    R11 = c.rule('C03.R11', 'WRITE-VERBATIM: the text that must parse back to the same document is the text on disk: the CLI writes what the serializer produced, unchanged (shared with C13.R15)')
+    c.shared(R11, _c13.r15_write_verbatim, 'C13.R15', facts)
     c.run(r5_base_closed, facts)
     c.run(r6_operation_ids, facts)
     c.run(lambda c: c04.r5_status_conv(c, facts, rule='C03.R4'))
